@@ -50,6 +50,9 @@ CFGS = {
     # first three decimals (filled in lazily from the observed confidence)
     "t0ns": {"threshold": 0, "col": "reaction", "nostats": True},   # the caller passes no stats dict
     "noaam": {"threshold": 0, "col": "reaction", "remove_aam": False},  # atom maps kept (attribute, no constructor argument)
+    # the caller asks for more columns than the default list (public attribute, as SynVis/vis_debug.py does);
+    # the cache key is the same as for "t0", so either run may be answered from the other's entry
+    "cols": {"threshold": 0, "col": "reaction", "extra_columns": ["mcs", "carbon_balance_check", "unbalance_col"]},
     "tc": {"threshold": None, "col": "reaction", "offset": 0.0},
     "tc+": {"threshold": None, "col": "reaction", "offset": 0.0004},
 }
@@ -86,6 +89,9 @@ def run_ops(tier):
     for c in ("noaam", "t0"):
         for bs in (None, 1):
             ops.append(("run", c, "M", bs))
+    for i in ("A", "AB"):
+        for bs in (None, 1):
+            ops.append(("run", "cols", i, bs))
     return ops
 
 
@@ -121,8 +127,25 @@ def _balancer(col):
             return copy.deepcopy(out)
 
         setattr(b, name, memo)
+        b._verif_base_columns = list(b.columns)
         _BAL[col] = b
     return _BAL[col]
+
+
+def _norm_rows(rows):
+    """rows as a caller can tell them apart: tuples and lists are not distinguished at any depth (an
+    entry that went through the JSON file has lists where the pipeline produced tuples)"""
+    out = []
+    for r in rows:
+        r = pipeline.norm_row(r)
+        out.append({k: json.loads(json.dumps(v, default=str)) if isinstance(v, (dict, list)) else v for k, v in r.items()})
+    return out
+
+
+def _configure(b, cfg):
+    b.confidence_threshold = cfg["threshold"]
+    b.remove_aam = cfg.get("remove_aam", True)
+    b.columns = list(b._verif_base_columns) + list(cfg.get("extra_columns", []))
 
 
 # --------------------------------------------------------------------- file effects
@@ -331,8 +354,7 @@ def execute(state, op, want_log=False):
             with open(p, "wb") as f:
                 f.write(text.encode("latin-1"))
         b = _balancer(cfg["col"])
-        b.confidence_threshold = cfg["threshold"]
-        b.remove_aam = cfg.get("remove_aam", True)
+        _configure(b, cfg)
         b.cache, b.cache_dir = True, cdir
         stats, rows, raised = {}, None, None
         sink = io.StringIO()
@@ -348,7 +370,7 @@ def execute(state, op, want_log=False):
                 p = os.path.join(root, fn)
                 with open(p, "rb") as f:
                     new[os.path.relpath(p, cdir)] = f.read().decode("latin-1")
-        obs = {"rows": [pipeline.norm_row(r) for r in rows] if rows is not None else None,
+        obs = {"rows": _norm_rows(rows) if rows is not None else None,
                "stats": {k: pipeline.norm_value(v) for k, v in stats.items()}, "raised": raised}
         if "Traceback" in sink.getvalue():
             obs["swallowed"] = sink.getvalue().strip().splitlines()[-1][:200]
@@ -370,14 +392,13 @@ def reference(op):
         _, cfg_name, inp, bs = op
         cfg = cfg_of(cfg_name)
         b = _balancer(cfg["col"])
-        b.confidence_threshold = cfg["threshold"]
-        b.remove_aam = cfg.get("remove_aam", True)
+        _configure(b, cfg)
         b.cache, b.cache_dir = False, None
         stats = {}
         sink = io.StringIO()
         with contextlib.redirect_stderr(sink), contextlib.redirect_stdout(sink):
             rows = b.rebalance(_input(inp), output_dict=True, stats=None if cfg.get("nostats") else stats, batch_size=bs)
-        _REF[k] = {"rows": [pipeline.norm_row(r) for r in rows], "stats": {k2: pipeline.norm_value(v) for k2, v in stats.items()},
+        _REF[k] = {"rows": _norm_rows(rows), "stats": {k2: pipeline.norm_value(v) for k2, v in stats.items()},
                    "raised": None}
     return _REF[k]
 
